@@ -53,6 +53,8 @@ def input_id(desc):
 
 def write_real_input(d, desc, allowed):
     """desc = {"abs": abstract input, "fmt": format}. Returns the YAML inputs entry."""
+    if desc.get("special") == "intersection":
+        return write_intersection_input(d, desc)
     spec = real_spec(desc["abs"])
     fmt = desc["fmt"]
     tag = input_id(desc)
@@ -73,6 +75,33 @@ def write_real_input(d, desc, allowed):
         # JSON Schema only keeps what the root reaches: a synthetic root referring to every object
         spec = {"pkg": spec["pkg"], "objects": [("Both", "struct", [(n.lower(), ("ref", n), False, None) for n in sorted(desc["abs"]["objs"])])] + spec["objects"]}
     return pc.write_input(d, spec, fmt, tag=tag, extra=extra)
+
+
+# the languages that can express an intersection (Python and PHP refuse them)
+INTERSECTION_LANGS = ["go", "java", "jsonschema", "openapi", "typescript"]
+
+
+def write_intersection_input(d, desc):
+    """An intersection (`allOf` / `A & {...}`) whose inline branch holds a nested ANONYMOUS struct: the naming passes of
+    go/java rewrite that branch, TypeScript keeps it - a shallow copy of the branches leaks from one language to the next."""
+    tag = input_id(desc)
+    pkg = PKG[desc["abs"]["pkg"]]
+    if desc["fmt"] == "cue":
+        cd = os.path.join(d, "cue_" + tag)
+        os.makedirs(cd, exist_ok=True)
+        open(os.path.join(cd, "s.cue"), "w").write(
+            "package cue_%s\n\nBase: {\n  id: string\n}\nMix: Base & {\n  extra: string\n  inner: {\n    deep: string\n    level?: int64\n  }\n}\n"
+            "Root: {\n  name: string\n  mix?: Mix\n}\n" % tag)
+        return {"cue": {"entrypoint": "%__config_dir%/cue_" + tag, "package": pkg}}
+    doc = {"$schema": "http://json-schema.org/draft-07/schema#", "$ref": "#/definitions/Root", "definitions": {
+        "Root": {"type": "object", "properties": {"name": {"type": "string"}, "mix": {"$ref": "#/definitions/Mix"}}},
+        "Base": {"type": "object", "properties": {"id": {"type": "string"}}},
+        "Mix": {"allOf": [{"$ref": "#/definitions/Base"}, {"type": "object", "properties": {
+            "extra": {"type": "string"},
+            "inner": {"type": "object", "properties": {"deep": {"type": "string"}, "level": {"type": "integer"}}}}}]}}}
+    p = os.path.join(d, tag + ".schema.json")
+    open(p, "w").write(json.dumps(doc, indent=1))
+    return {"jsonschema": {"path": "%__config_dir%/" + os.path.basename(p), "package": pkg}}
 
 
 def make_job(base, name, descs, langs, flags, allowed="all", ndef=0, sched=None):
@@ -218,6 +247,18 @@ def run(ctx):
             for ls in subsets:
                 for sv in (sched_variants if len(ls) > 1 else [None]):
                     plan.add("langs", descs, ls, flagname, sched=sv)
+    # intersections with a nested anonymous struct (what the naming passes of go/java rewrite in place), alone and beside an ordinary input
+    isect_abs = {"pkg": "p", "coll": False, "objs": {"A": {"body": "x", "ncands": 0}}}
+    plain_q = {"abs": {"pkg": "q", "coll": False, "objs": {"A": {"body": "x", "ncands": 0}}}, "fmt": "openapi"}
+    # JSON Schema `allOf` stays an intersection in the IR (the Go jenny cannot print it: java is the naming language there);
+    # CUE `Base & {...}` is unified by the parser (thorough only: all five languages)
+    for fmt in (("jsonschema",) if quick else ("jsonschema", "cue")):
+        univ = [l for l in INTERSECTION_LANGS if not (fmt == "jsonschema" and l == "go")]
+        isect_subsets = [[l] for l in univ] + [list(p) for p in itertools.combinations(univ, 2)] + [list(univ)]
+        for descs in ([{"abs": isect_abs, "fmt": fmt, "special": "intersection"}], [{"abs": isect_abs, "fmt": fmt, "special": "intersection"}, plain_q]):
+            for ls in isect_subsets:
+                for sv in (sched_variants if len(ls) > 1 else [None]):
+                    plan.add("langs", descs, ls, "types", sched=sv)
 
     # --- InputOrderIndependent: TLC's perm cases (two inputs of different packages) + every permutation of three mixed-format inputs
     def conflicting(inputs):
@@ -408,7 +449,7 @@ def run(ctx):
     ijobs = []
     entries = [pc.feature_entry(idir, "im-shapes", {"pkgs": 2, "cands": 1, "defaults": 1}),
                pc.feature_entry(idir, "im-compose", {"compose": 2, "cands": 1}),
-               pc.sink_entry(idir, "im-sink")]
+               pc.sink_entry(idir, "im-sink"), pc.passes_entry(idir, "im-passes")]
     if not quick:
         entries.append(pc.feature_entry(idir, "im-all", {"pkgs": 2, "cands": 1, "defaults": 1, "compose": 2, "nested": 1, "collide": 1}))
     for e in entries:
@@ -616,6 +657,7 @@ def replay(ctx):
         entries = {"im-shapes": lambda: pc.feature_entry(idir, "im-shapes", {"pkgs": 2, "cands": 1, "defaults": 1}),
                    "im-compose": lambda: pc.feature_entry(idir, "im-compose", {"compose": 2, "cands": 1}),
                    "im-sink": lambda: pc.sink_entry(idir, "im-sink"),
+                   "im-passes": lambda: pc.passes_entry(idir, "im-passes"),
                    "im-all": lambda: pc.feature_entry(idir, "im-all", {"pkgs": 2, "cands": 1, "defaults": 1, "compose": 2, "nested": 1, "collide": 1})}
         eid = r["entry"].replace("-rnd", "")
         e = entries[eid]()
